@@ -30,3 +30,7 @@ claim("C14", "DESIGN.md 5/C14",
       "Lean 4 decision over the regenerated decorator order of the five nested transfer workers (which cancellation positions are caught by `worker`) with positive theorems and two proved negative witnesses + ABOR injected at every loop iteration of every transfer script on the real server, replies/survival compared with the model, prefix and follow-up oracles",
       "The theorems are re-decided against the current decorator order on every run; the injection sweep is exhaustive over (transfer kind x size x data-connection timing x every loop iteration) and the worker position is read off the real connection when the server processes the ABOR.",
       "Trusted: Lean kernel; asyncio cancellation semantics; in-memory network; one transfer at a time.")
+claim("C06", "DESIGN.md 5/C06",
+      "Lean 4 theorems on a transcription of write_response / StreamReader.readline / parse_line / parse_response / Code.matches / command loop / parse_command (roundtrip, sequence, segmentation irrelevance, mismatch rejection, mask semantics) for all codes, line lists, encodings and segmentations + decision over the regenerated table of every connection.response call site + differential run real write_response -> real StreamReader -> real parse_response",
+      "Unbounded kernel-checked theorems carry the property on rstrip-stable lines (exact identity) and give the exact result otherwise; the call-site table is re-decided on every run; trailing-whitespace loss is a recorded finding with a proved witness.",
+      "Trusted: Lean kernel; asyncio StreamReader.readline as modelled, lines < 64 KiB; CPython rstrip/isdigit/lower tables generated from the running interpreter.")
